@@ -1,6 +1,7 @@
 package sim
 
 import (
+	"bytes"
 	"encoding/json"
 	"fmt"
 	"reflect"
@@ -306,12 +307,27 @@ func (m *MonC03) OnEnd(w *World) []Violation {
 				// (stray), unless the same step goes on to hand that resource over:
 				// then the event overtook the frame that first hands it to the client
 				if ev.Event != "unsubscribe" {
+					reported := false
 					for _, h := range c.Ref.Handovers {
 						if h.RID == ev.RID && h.Fresh && !h.IsErr && h.T > ev.T && w.stepOfT(h.T) == w.stepOfT(ev.T) {
 							vs = append(vs, Violation{Property: "C03", Class: "event_before_handover", Conn: c.Idx, RID: ev.RID, T: ev.T, Step: w.stepOfT(ev.T),
 								Message: fmt.Sprintf("c%d: %s event for %s delivered at t=%d, before the frame that hands %s to the client (t=%d)", c.Idx, ev.Event, ev.RID, ev.T, ev.RID, h.T)})
+							reported = true
 							break
 						}
+					}
+					// ... or the resource was never handed to the client at all (an event
+					// for a resource the client held and dropped is C02's stray event)
+					ever := false
+					for _, h := range c.Ref.Handovers {
+						if h.RID == ev.RID && h.T < ev.T {
+							ever = true
+							break
+						}
+					}
+					if !reported && !ever && !frameCarried(w, c, ev.RID, ev.T) {
+						vs = append(vs, Violation{Property: "C03", Class: "event_before_handover", Conn: c.Idx, RID: ev.RID, T: ev.T, Step: w.stepOfT(ev.T),
+							Message: fmt.Sprintf("c%d: %s event for %s delivered at t=%d although no response or event has ever handed %s to the client", c.Idx, ev.Event, ev.RID, ev.T, ev.RID)})
 					}
 				}
 				continue
@@ -405,4 +421,37 @@ func (m *MonC03) OnEnd(w *World) []Violation {
 		}
 	}
 	return append(vs, m.viols...)
+}
+
+// frameCarried reports whether some frame sent to the client before log time t
+// carried data (or an error) for the rid in a resource set - also a frame the
+// reference client did not take resources from (the set of an event for a
+// resource it had dropped).
+func frameCarried(w *World, c *Client, rid string, t int) bool {
+	for _, e := range w.Log() {
+		if e.T >= t {
+			break
+		}
+		if e.Kind != "frame" || e.Conn != c.Idx || !bytes.Contains(e.Payload, []byte(jstr(rid)+":")) {
+			continue
+		}
+		var f struct {
+			Result map[string]json.RawMessage `json:"result"`
+			Data   map[string]json.RawMessage `json:"data"`
+		}
+		if json.Unmarshal(e.Payload, &f) != nil {
+			continue
+		}
+		for _, set := range []map[string]json.RawMessage{f.Result, f.Data} {
+			for _, kind := range []string{"models", "collections", "errors"} {
+				var m map[string]json.RawMessage
+				if json.Unmarshal(set[kind], &m) == nil {
+					if _, ok := m[rid]; ok {
+						return true
+					}
+				}
+			}
+		}
+	}
+	return false
 }
